@@ -61,6 +61,21 @@ def forward_case(draw, tier="quick"):
         f = f.real.copy()
     elif forms["dtype"] in ("int", "list"):
         f = np.round(f.real).astype(np.int64)
+    if draw(st.integers(0, 7)) == 0:
+        # rows and columns sampled (almost) alike: square input and output, equal offsets, per-axis alpha and shift
+        # equal, a few ulps apart or 1e-12..1e-3 apart
+        n_in, n_out = in_shape[0], out_shape[0]
+        f = draw(gen.complex_array((n_in, n_in)))
+        out_shape = (n_out, n_out)
+        shape_arg_kind = draw(st.sampled_from(["pair", "int"]))
+        a0 = draw(gen.signed_log(1e-3, 0.5))
+        alpha = (a0, draw(gen.near(a0)))
+        alpha_arg, akind = alpha, "near_pair"
+        s0 = 0.0 if draw(st.booleans()) else draw(gen.finite(-2.0 * n_out, 2.0 * n_out))
+        shift = (s0, draw(gen.near(s0)) if draw(st.booleans()) else s0)
+        o0 = draw(st.integers(-20, 20)) if draw(st.booleans()) else 0
+        offset = (o0, o0)
+        forms = {"shift_scalar": False, "offset_scalar": False, "dtype": "complex", "layout": draw(gen.layouts())}
     return {"forms": forms, "f": f, "alpha_arg": list(alpha_arg) if isinstance(alpha_arg, tuple) else alpha_arg,
             "alpha": list(alpha), "akind": akind, "out_shape": list(out_shape), "shape_arg": shape_arg_kind,
             "shift": list(shift), "offset": list(offset), "unitary": draw(st.booleans()),
@@ -337,3 +352,36 @@ def long(case, ctx):
                                           f"sample {tuple(int(v) for v in i)} by {float(err.max()):.3e} (tol {tol:.3e})")
     if "out" in kw and F is not kw["out"]:
         raise Violation("C01.long.out", "out= buffer is not the returned array")
+
+
+# --- input planes of more than a million samples (both axes long), small output windows ------------------------
+
+@st.composite
+def huge2d_case(draw, tier="quick"):
+    m = draw(st.integers(1030, 1500))
+    n = draw(st.integers(max(700, 2**20 // m + 1), 1500)) if draw(st.integers(0, 3)) else draw(st.integers(600, 1000))
+    if draw(st.booleans()):
+        m, n = n, m
+    k = draw(st.integers(0, 2**31 - 1))
+    out_shape = (draw(st.integers(1, 6)), draw(st.integers(1, 6)))
+    alpha = [draw(gen.signed_log(1e-5, 2e-3)), draw(gen.signed_log(1e-5, 2e-3))]
+    return {"forms": {"dtype": draw(st.sampled_from(["complex", "float"])), "layout": draw(gen.layouts())},
+            "seed": k, "in_shape": [m, n], "alpha_arg": alpha, "alpha": alpha, "akind": "pair",
+            "out_shape": list(out_shape), "shape_arg": "pair",
+            "shift": [draw(gen.finite(-3, 3)), draw(gen.finite(-3, 3))] if draw(st.booleans()) else [0.0, 0.0],
+            "offset": [draw(st.integers(-30, 30)), draw(st.integers(-30, 30))] if draw(st.booleans()) else [0, 0],
+            "unitary": draw(st.booleans()), "out": "none"}
+
+
+@hyp("C01", "huge2d", lambda tier: huge2d_case(tier),
+     "input planes of 600..1500 samples on both axes (mostly more than 2^20 samples in total, sizes of no special "
+     "form) transformed onto 1..6 x 1..6 output samples vs the defining sum", examples=(8, 30), budget_s=(150, 700))
+def huge2d(case, ctx):
+    m, n = case["in_shape"]
+    rng = np.random.default_rng(case["seed"])
+    f = rng.normal(size=(m, n))
+    if case["forms"]["dtype"] == "complex":
+        f = f + 1j * rng.normal(size=(m, n))
+    case = dict(case, f=f)
+    ctx.tag("samples>2^20" if m * n > 2**20 else "samples<=2^20", "huge2d")
+    _check_forward(case, ctx, oracle="C01.huge2d")
